@@ -148,6 +148,7 @@ _c("DataDump", "op", "Any", "NoData", [], lambda d, w: NODATA, recorded=False)
 _c("VValueProbe", "probe", "Float", None, [], lambda d, w: d)
 _c("VScaledProbe", "probe", "Float", None, [("scale", 1.0)], lambda d, w, scale=1.0: d * scale)
 _c("VOffsetProbe", "probe", "Float", None, [("offset", REQ)], lambda d, w, offset: d + offset)
+_c("VTagProbe", "probe", "Float", None, [("tag", "t")], lambda d, w, tag="t": f"{d}:{tag}")
 _c("VNoneProbe", "probe", "Float", None, [], lambda d, w: None)
 _c("FloatBasicProbe", "probe", "Float", None, [], _basic_probe, recorded=False)
 _c("FloatCollectValueProbe", "probe", "Float", None, [], lambda d, w: d, recorded=False)
